@@ -5,6 +5,7 @@
 set -u
 first=$1
 ids="$@"
+case "$first" in S*) shift; ids="$@";; esac
 ag=/tmp/ag-$first; rp=/tmp/rp-$first
 fail() { echo "INTEGRATE-FAIL: $*"; exit 1; }
 
